@@ -457,6 +457,41 @@ def install(E):
         touches=set(TOUCH), hints={'dict_kind_default': 'fdict'}, owner='C01',
         note='object formulas, F=None; the text/parser leg and the fairness leg are bounded only'))
 
+    # -- modelcheck on a TEXT formula (parser=None): the same statement about the formula the parser returns ----
+    from .contracts_parser import lark_tok, lark_chr, lark_val
+
+    def parsed(c):
+        return fm.FML(lark_val(c.formula.t))
+
+    def mct_requires(c):
+        h0, k = c.h0, c.kripke.t
+        f = parsed(c)
+        out = [('kripke_wf', wfK(h0, k)),
+               ('no_None_state', z3.Not(V(h0, k)[hp.NONE_H])),
+               # what the parser returns is an object of the CTL classes (C10, bounded): its state-formula class implies the grammar
+               ('objects_of_state_classes_are_wf', z3.Implies(is_tag(f, *STATE_TAGS), wfS(f)))]
+        if c.side == 'callee':
+            h_, k_ = c.h0, c.kripke.t
+            out.append(('documented_semantics', z3.And(fm.syntax_axioms() + rng_axioms() + fm.semantic_axioms(
+                V(h_, k_), lambda s, d: edge(h_, k_, s, d), lambda s: Lab(h_, k_, s)))))
+        return out
+
+    def mct_ensures(c):
+        s = X('s')
+        R = c.h1.set_of(c.res.t)
+        return [('result_is_sat_of_the_parsed_formula', z3.ForAll([s], R[s] == sat(parsed(c))[s])),
+                ('result_is_fresh', z3.And(c.res.t >= c.h0.alloc, c.res.t < c.h1.alloc))]
+
+    reg(Contract(
+        'CTL.modelcheck(text)', 'ctl', [('kripke', 'kripke'), ('formula', 'text'), ('parser', 'none'), ('F', 'none')], ret='set',
+        requires=mct_requires, ensures=mct_ensures,
+        raises={'pkg.UnexpectedToken': lambda c: lark_tok(c.formula.t),
+                'pkg.UnexpectedCharacters': lambda c: lark_chr(c.formula.t),
+                'TypeError': lambda c: z3.And(z3.Not(lark_tok(c.formula.t)), z3.Not(lark_chr(c.formula.t)), z3.Not(is_tag(parsed(c), *STATE_TAGS)))},
+        touches=set(TOUCH), hints={'dict_kind_default': 'fdict', 'path': 'modelcheck'}, owner='C01',
+        note='text formula, default parser, F=None: the answer is sat of the formula object the parser returns (which object that is: C09/C10, bounded); '
+             'parse errors propagate as the package\'s ParserError subclasses'))
+
     # -- modelcheck with fairness constraints: FRAME and SAFETY only (C07/C15/C19) --------------------
     # (what it returns is decided by the bounded check: the fair-state label is wrong on the pinned
     #  tree, KF-C15-1, and the reduction itself is unsound, KF-C15-2)
